@@ -163,7 +163,7 @@ def main(args: Any) -> int:
     rep = Report(PID, args.tier, "symbolic execution (symx/z3) of the real Errors.report clamps and the location-prefix rendering; all four position components symbolic incl. None")
     rep.bounds += ["line >= 1, column/end_line/end_column each None or an int >= -1 (unbounded above); one diagnostic; show_column_numbers/show_error_end symbolic; pretty off (K3 covers the marker when present)"]
     rep.assumptions += ["stub Errors self (no scope, no watchers); ErrorInfo is the real class"]
-    rep.outside += ["native vs default parser equivalence beyond the option hand-over in parse_all (external compiled front end; programs as inputs)", "line exists in the file / column within the line (needs the parser + checker pipeline on source text)"]
+    rep.outside += ["native vs default parser equivalence beyond the generated programs of K6 and the option hand-over in parse_all (the property quantifies over every source file)", "line exists in the file / column within the line (needs the parser + checker pipeline on source text)"]
     k1_k2(rep)
     # the one hinge of "native parser = default parser" that is mypy's own Python code: batch parsing must
     # hand each file's inline configuration to the deserialiser (kernel shared with C17/K5)
@@ -171,6 +171,9 @@ def main(args: Any) -> int:
 
     k5_inline_batch(rep)
     rep.bounds.append("K5 (shared with C17): batches of 2-3 files in BuildManager.parse_all, native-parser branch")
+    from vf import c14_parsers
+
+    c14_parsers.run(rep, args.tier)
     try:
         from vf import c14_marker
     except ImportError:
